@@ -8,7 +8,7 @@ PENDING = "unit not built yet in this session (planned in DESIGN.md section 5); 
 
 PROPS = {
     "C15": dict(
-        units=["u1_int"],
+        units=["u1_int", "u17_codegen"],
         level="proof",
         level_text=("Every integer arithmetic arm of VmGreenThread::step (+ - * / % ^ and their immediate forms) and "
                     "checked_pow_int are cut from vm.rs on each run and verified by Verus, for all operand values and all "
@@ -17,8 +17,10 @@ PROPS = {
                     "the outcome class on the real stack helpers for all 2^128 operand pairs."),
         level_note=("Trusted: Verus/Z3, Kani/CBMC, the slicer and rewrite rules R0/R2/R3; vstd specs of checked_add/sub/mul/div/"
                     "rem_euclid; assumed std contract for i64::checked_pow; stack helper and value-encoding contracts (proved "
-                    "separately by Kani in unit U4, bounded stack). Not covered: the translator's choice of opcode for an operator "
-                    "(unary minus lowering and compound assignment are code generation), dispatch in step()."),
+                    "separately on the real helpers by Verus unit u4v_stack and Kani unit u4_plumbing). That the operators + - * / % ^, "
+                    "the compound assignments and unary minus reach those opcodes is checked SYNTACTICALLY on the fixed tables of "
+                    "translate_bytecode.rs / assembly.rs (unit u17_codegen; reported under bounded_or_syntactic, not counted as proofs). "
+                    "Not covered: operand evaluation order and the rest of code generation, dispatch in step()."),
         technique="deductive verification (Verus/Z3) of lifted real match arms + Kani function-level twins",
         scope="VM arms for + - * / % ^ and their immediate forms against the mathematical spec of C15",
         assumptions=[],
@@ -124,7 +126,7 @@ PROPS = {
         assumptions=[],
     ),
     "C16": dict(
-        units=["u2_float"],
+        units=["u2_float", "u17_codegen"],
         level="proof",
         level_text=("Float arms of step() on the real vm.rs, Kani loop-free over all bit patterns of every operand: + - * (register and "
                     "immediate forms) apply the IEEE operator to (a, b) in that order and never stop; / stops with DivisionByZero exactly "
